@@ -37,6 +37,9 @@ const (
 	EvLeaveJoint
 	EvReportUnreachable
 	EvProposeBatch
+	EvReadyNoAdvance
+	EvAdvance
+	EvCrashPowerLoss
 	NumEv
 )
 
@@ -47,6 +50,7 @@ var EvNames = [NumEv]string{
 	"ready_crash_before_persist", "ready_crash_after_persist", "crash",
 	"restart", "restart_applied0", "compact_snapshot", "confchange_v1",
 	"confchange_v2", "leave_joint", "report_unreachable", "propose_batch",
+	"ready_without_advance", "advance_after_other_events", "crash_losing_unsynced_hard_state",
 }
 
 // Ev is one trace record. Message events carry a digest of the message.
@@ -98,6 +102,10 @@ type disk struct {
 	cs       pb.ConfState
 	smHash   uint64
 	override bool
+	// syncedHS is the last HardState written by a Ready that said MustSync (what a write-ahead log that only
+	// syncs when told so is certain to hold after a power failure); unsynced is set while a later one is not
+	syncedHS pb.HardState
+	unsynced bool
 }
 
 func (d *disk) InitialState() (pb.HardState, pb.ConfState, error) {
@@ -115,6 +123,12 @@ type node struct {
 	up    bool
 	peers []raft.Peer // non-nil: bootstrapped via RawNode.Bootstrap
 	incar int
+	// pending is a Ready that was handled (persisted, sent, applied) but not yet acknowledged with Advance:
+	// other events, message deliveries among them, happen in between, as with raft.Node's run loop
+	pending *raft.Ready
+	// afterPowerLoss: the persisted commit index may now lie below what the application had applied, so the
+	// application reloads its state machine from the snapshot at the next start (as raftexample always does)
+	afterPowerLoss bool
 
 	// monitor state (survives crashes: it belongs to the observer)
 	hs            pb.HardState // last persisted HardState
@@ -519,14 +533,32 @@ func (s *Sim) doReportUnreachable(id, peer uint64) {
 
 func (s *Sim) crashNode(n *node) {
 	n.rn = nil
+	n.pending = nil
 	n.up = false
 	n.lcPending = false
 	s.stats.Crashes++
 }
 
-func (s *Sim) doCrash(id uint64) {
+func (s *Sim) doCrash(id uint64) { s.crash(id, false) }
+
+// doPowerLoss is a crash that loses whatever was written without MustSync (scripted scenarios).
+func (s *Sim) doPowerLoss(id uint64) { s.crash(id, true) }
+
+func (s *Sim) crash(id uint64, power bool) {
+	n := s.nodes[id]
+	if n.disk.unsynced && (power || s.rng.Intn(2) == 0) {
+		// power failure: a HardState written without MustSync is not on the disk yet
+		s.record(EvCrashPowerLoss, id, nil, 0, 0)
+		_ = n.disk.SetHardState(n.disk.syncedHS)
+		n.hs = n.disk.syncedHS
+		n.disk.unsynced = false
+		n.afterPowerLoss = true
+		s.crashNode(n)
+		s.afterEvent()
+		return
+	}
 	s.record(EvCrash, id, nil, 0, 0)
-	s.crashNode(s.nodes[id])
+	s.crashNode(n)
 	s.afterEvent()
 }
 
@@ -534,6 +566,10 @@ func (s *Sim) doRestart(id uint64, applied0 bool) {
 	k := EvRestart
 	if applied0 {
 		k = EvRestartApplied0
+	}
+	if s.nodes[id].afterPowerLoss {
+		applied0, k = true, EvRestartApplied0
+		s.nodes[id].afterPowerLoss = false
 	}
 	s.record(k, id, nil, 0, 0)
 	s.stats.Restarts++
@@ -546,13 +582,26 @@ const (
 	readyFull = iota
 	readyCrashPre
 	readyCrashPost
+	readyHold // persist, send and apply now; Advance at the next doReady of this node
 )
 
 // doReady handles the Ready of node id exactly like raftexample: persist
 // HardState, snapshot and entries; then send; then apply; then Advance.
 func (s *Sim) doReady(id uint64, mode int) {
 	n := s.nodes[id]
+	if n.pending != nil {
+		// the Ready taken earlier is acknowledged now, after whatever happened in between
+		s.record(EvAdvance, id, nil, 0, 0)
+		n.rn.Advance(*n.pending)
+		n.pending = nil
+		s.afterEvent()
+		return
+	}
+	split := mode == readyHold || (mode == readyFull && s.rng.Intn(4) == 0)
 	k := EvReady
+	if split {
+		k = EvReadyNoAdvance
+	}
 	if mode == readyCrashPre {
 		k = EvCrashPrePersist
 	} else if mode == readyCrashPost {
@@ -586,6 +635,11 @@ func (s *Sim) doReady(id uint64, mode int) {
 		return
 	}
 	s.stats.ReadStates += len(rd.ReadStates)
+	if split {
+		n.pending = &rd
+		s.afterEvent()
+		return
+	}
 	n.rn.Advance(rd)
 	s.afterEvent()
 }
@@ -596,6 +650,18 @@ func (s *Sim) persist(n *node, rd *raft.Ready) {
 		s.mon.checkHardState(s, n, rd.HardState)
 		_ = d.SetHardState(rd.HardState)
 		n.hs = rd.HardState
+		if rd.MustSync {
+			d.syncedHS, d.unsynced = rd.HardState, false
+		} else {
+			d.unsynced = true
+		}
+	} else if rd.MustSync && d.unsynced {
+		// a synced write flushes what was written before it
+		d.syncedHS, d.unsynced = n.hs, false
+	}
+	if !raft.IsEmptySnap(rd.Snapshot) && d.unsynced {
+		// saving a snapshot syncs the log (wal.SaveSnapshot), and with it everything written before
+		d.syncedHS, d.unsynced = n.hs, false
 	}
 	if !raft.IsEmptySnap(rd.Snapshot) {
 		s.mon.checkSnapshot(s, n, &rd.Snapshot)
@@ -712,6 +778,11 @@ func (s *Sim) doCompact(id uint64) bool {
 	n := s.nodes[id]
 	d := n.disk
 	a := d.applied
+	if n.pending != nil {
+		// raft's own applied cursor only moves at Advance, and the application must not compact beyond it
+		// (Storage contract): no compaction while a Ready is outstanding
+		return false
+	}
 	if a <= n.snapIndex() {
 		return false
 	}
@@ -723,6 +794,10 @@ func (s *Sim) doCompact(id uint64) bool {
 	if _, err := d.CreateSnapshot(a, &cs, encodeSM(d.smHash)); err != nil {
 		s.fail("StorageContract", "n%d: CreateSnapshot(%d): %v", id, a, err)
 		return true
+	}
+	// the snapshot is recorded in the log with a sync (wal.SaveSnapshot): nothing written before it can be lost
+	if d.unsynced {
+		d.syncedHS, d.unsynced = n.hs, false
 	}
 	keep := uint64(s.rng.Intn(4))
 	fi, _ := d.FirstIndex()
